@@ -50,6 +50,17 @@ static trl_which_t classify_standard(const vnacal_new_measurement_t *vnmp,
     *unknown_index = -1;
     vnprp_one = _vnacal_get_parameter(vcp, VNACAL_ONE);
     assert(vnprp_one != NULL);
+
+    /*
+     * A standard that leaves a port unconnected (for example a single
+     * reflect) has unspecified (NULL) cells in its S matrix; it's none
+     * of T, R or L.
+     */
+    for (int cell = 0; cell < 4; ++cell) {
+	if (s[cell] == NULL) {
+	    return TRL_NONE;
+	}
+    }
     if (s[1]->vnpr_parameter == vnprp_one) {
 	if (s[2]->vnpr_parameter == vnprp_one &&
 		s[0] == vnp->vn_zero && s[3] == vnp->vn_zero) {
